@@ -210,12 +210,13 @@ PROPS = {
     ),
     "C10": dict(
         level="exploration", monitors={"mon_c10": {"sources": ["mon_c10.c", "vf_req.c", "ref_pixel.c", "vf.c"]}},
-        runs=[dict(name="plain", monitor="mon_c10", flavour="plain", cases={"quick": 5488, "thorough": 41160}),
-              dict(name="general-only", monitor="mon_c10", flavour="plain", config="general-only", env=GENERAL_ONLY, cases={"quick": 5488, "thorough": 41160}),
-              dict(name="asan", monitor="mon_c10", flavour="asan", cases={"quick": 5488, "thorough": 13720})],
+        runs=[dict(name="plain", monitor="mon_c10", flavour="plain", cases={"quick": 6272, "thorough": 47040}),
+              dict(name="general-only", monitor="mon_c10", flavour="plain", config="general-only", env=GENERAL_ONLY, cases={"quick": 6272, "thorough": 47040}),
+              dict(name="asan", monitor="mon_c10", flavour="asan", cases={"quick": 6272, "thorough": 15680})],
         rule="case = (format, kind, chunk): for every format accepted as a source (and float formats) ALL 2^bpp pixel values for bpp <= 16 (16 chunks of 4096) and per-byte-lane sweeps + random words for 24/32 bpp, placed at x offsets 0..9; "
              "kinds: decode to a8r8g8b8 against the reference widening (bit replication; palettes for indexed formats; wide formats: 0->0, max->max, most significant bits), decode to rgba_float against v/(2^n-1), "
              "encode from a8r8g8b8 against truncation (indexed: ent[] with the 15-bit key), round trips F->a8r8g8b8->F and F->float->F, store footprint at bit level for 1..3-pixel stores, "
+             "copies of rows made of runs (neighbours that agree in all fields but one): F->F (indexed: between two palettes), the round trips again, and F->G for other narrow formats against encode(decode(v)), "
              "scanline reader vs single-pixel reader (forced by a homogeneous-scale identity transform), and every read/write repeated on an accessor image whose bits pointer is an unmapped fake address "
              "(a direct dereference faults; callbacks are bounds-checked); evaluations = pixel values compared; a cell = (kind, format, chunk, x offset)",
         floors={"any": {"labels:format_kind": 180, "accessor_reads": 100000, "accessor_writes": 100000, "roundtrip_pixels": 500000, "footprint_bits": 100000}},
